@@ -344,10 +344,12 @@ fn run_in(dir: &std::path::Path, ops: &[DOp]) -> String {
 // constraints, SET / DROP NOT NULL in autocommit or in a session that commits; ADD / DROP COLUMN on empty tables;
 // DML around them; reopen.  Finding features (at most one per case):
 //   alter_populated       ADD / DROP COLUMN on a table that has rows                      (region)
-//   drop_in_open_txn      DROP TABLE inside a session that rolls back, or while another open session reads it   (region)
+//   drop_in_open_txn      DROP TABLE inside a session that rolls back, or while another open session reads it   (clean since
+//                         main's 3729a46: the tree stays until VACUUM)
 //   index_ddl_rollback    CREATE UNIQUE INDEX / ADD CONSTRAINT inside a session that rolls back                   (region)
 //   alter_rollback        other ALTER inside a session that rolls back       (flag updateKeepsInserterXmin)
-//   concurrent_create     two open sessions create the same name             (flag uniqueNotRecheckedAtCommit)
+//   concurrent_create     two open sessions create the same name: the second CREATE is refused with a conflict when it
+//                         runs (fix e915fd1; the specification refuses the second COMMIT)   (flag createRefusedWhileNameHeld)
 
 #[derive(Clone)]
 struct GTable {
@@ -408,9 +410,10 @@ fn gen_c15(rng: &mut Rng, out: &mut Vec<Case>) {
         _ => "concurrent_create",
     };
     let n_steps = rng.range(4, 9);
-    // catalog entries created so far (tables, unique indexes, warm-up); most cases stay below the point where the
-    // meta page fills up (see `catalog_pressure` below), a few are allowed beyond it
-    let cap: i64 = if rng.chance(1, 25) { 100 } else { 5 };
+    // catalog entries created so far (tables, unique indexes, warm-up).  Until main's 9fb3e8e (key-only dividers in
+    // the B+tree) a catalog entry growing in a full meta page broke the catalog tree and cases had to stay below six
+    // entries; now one case in three may grow the catalog as far as its steps allow.
+    let cap: i64 = if rng.chance(1, 3) { 100 } else { 5 };
     let created = |ops: &Vec<String>| -> i64 {
         let mut n = 1;
         for blk in ops {
@@ -677,10 +680,8 @@ fn gen_c15(rng: &mut Rng, out: &mut Vec<Case>) {
             }
         }
     }
-    // catalog pressure (region): the meta table's page gets full after about six catalog entries (tables, unique
-    // indexes, the warm-up table); a catalog entry growing after that point corrupts the catalog tree
-    // (`Expected overflow frame`, every name stops resolving) — a B+tree defect reported separately.
-    // Conservative predictor: the largest number of catalog entries ever alive in the case.
+    // descriptive tag `catalog_pressure` (clean since 9fb3e8e): six or more catalog entries (tables, unique indexes, the
+    // warm-up table) were alive in the case, i.e. catalog entries grow in a full meta page
     let line = ops.join(" ; ");
     let mut alive: i64 = 1;
     let mut peak: i64 = 1;
@@ -696,17 +697,10 @@ fn gen_c15(rng: &mut Rng, out: &mut Vec<Case>) {
         }
         peak = peak.max(alive);
     }
-    let has_feature = ["alter_populated", "drop_in_open_txn", "index_ddl_rollback", "alter_rollback", "concurrent_create"]
-        .iter()
-        .any(|f| tags.iter().any(|t| t == *f));
     if peak >= 6 {
-        if has_feature {
-            // a case carries at most one finding feature: this one is not emitted
-            return;
-        }
         tags.push("catalog_pressure".into());
     }
-    let kf = ["alter_populated", "drop_in_open_txn", "index_ddl_rollback", "alter_rollback", "concurrent_create", "catalog_pressure"]
+    let kf = ["alter_populated", "index_ddl_rollback", "alter_rollback", "concurrent_create"]
         .iter()
         .find(|f| tags.iter().any(|t| t == *f));
     match kf {
@@ -787,11 +781,110 @@ fn gen_drop_then_add(rng: &mut Rng, out: &mut Vec<Case>) {
     out.push(Case { line: format!("ddl | {}", ops.join(" ; ")), tags });
 }
 
+/// DROP TABLE in a session that rolls back (or is dropped), later — with nothing but reads, inserts or a reopen in
+/// between — a DROP TABLE that commits, then the name is probed, created again with another shape, filled and read,
+/// sometimes across a reopen.  (The rolled-back DROP leaves its mark on the catalog row; the committed DROP must not
+/// take that mark for its own work.)  Clean region.
+fn gen_drop_after_rolled_back_drop(rng: &mut Rng, out: &mut Vec<Case>) {
+    let t = "t";
+    let mut ops: Vec<String> = Vec::new();
+    let unique = rng.chance(1, 3);
+    ops.push(format!("db ct {}(k:big{},v:int)", t, if unique { "*" } else { "" }));
+    let n = rng.range(0, 2);
+    for i in 1..=n {
+        ops.push(format!("db ins {} {} {}", t, i, 10 * i));
+    }
+    if rng.chance(1, 3) {
+        ops.push("db ct u(k:big)".into());
+    }
+    // the DROP that does not happen, once or twice
+    for _ in 0..rng.range(1, 2) {
+        let end = if rng.chance(1, 2) { "rollback" } else { "drop" };
+        if rng.chance(1, 2) {
+            ops.push(format!("s1 begin ; s1 dt {} ; s1 sel {} ; s1 {}", t, t, end));
+        } else {
+            ops.push(format!("s1 begin ; s1 ins {} 7 70 ; s1 dt {} ; s1 {}", t, t, end));
+        }
+        ops.push(format!("db sel {}", t));
+    }
+    match rng.below(3) {
+        0 => ops.push(format!("db ins {} 8 80 ; db sel {}", t, t)),
+        1 => ops.push(format!("reopen ; db sel {}", t)),
+        _ => {}
+    }
+    // the DROP that happens
+    match rng.below(3) {
+        0 => ops.push(format!("s1 begin ; s1 dt {} ; s1 commit", t)),
+        1 => ops.push(format!("s2 begin ; s1 begin ; s1 dt {} ; s1 commit ; s2 sel {} ; s2 commit", t, t)),
+        _ => ops.push(format!("db dt {}", t)),
+    }
+    let probe = |ops: &mut Vec<String>| {
+        ops.push(format!("db sel {}", t));
+        ops.push(format!("db ins {} 9 90", t));
+        ops.push(format!("db dt {}", t));
+    };
+    probe(&mut ops);
+    if rng.chance(1, 3) {
+        ops.push("reopen".into());
+        probe(&mut ops);
+    }
+    // the name is free: another shape
+    ops.push(format!("db ct {}(a:int,b:int,c:int)", t));
+    ops.push(format!("db ins {} 1 2 3 ; db sel {}", t, t));
+    if rng.chance(1, 2) {
+        ops.push(format!("reopen ; db sel {} ; db ins {} 4 5 6 ; db sel {}", t, t, t));
+    }
+    let tags: Vec<String> = vec!["c15".into(), "drop_after_rolled_back_drop".into(), "nt".into(), "clean".into()];
+    out.push(Case { line: format!("ddl | {}", ops.join(" ; ")), tags });
+}
+
+/// CREATE UNIQUE INDEX / ADD CONSTRAINT UNIQUE over rows that collide: refused, and the table must stay usable (rows
+/// inserted and read afterwards, duplicates still accepted); then the duplicates are deleted, the same DDL succeeds
+/// and a duplicate is refused; in autocommit or inside a session that goes on and commits, sometimes with a reopen.
+/// Clean region.
+fn gen_index_over_duplicates(rng: &mut Rng, out: &mut Vec<Case>) {
+    let t = "t";
+    let mut ops: Vec<String> = Vec::new();
+    ops.push(format!("db ct {}(k:big,v:int)", t));
+    ops.push(format!("db ins {} 1 10 ; db ins {} 2 20 ; db ins {} 1 30", t, t, t));
+    if rng.chance(1, 2) {
+        ops.push(format!("db ins {} null 40 ; db ins {} null 50", t, t));
+    }
+    let how = if rng.chance(1, 2) { "ci" } else { "ak" };
+    match rng.below(3) {
+        0 => ops.push(format!("db {} {} k", how, t)),
+        1 => ops.push(format!("s1 begin ; s1 {} {} k ; s1 ins {} 3 60 ; s1 commit", how, t, t)),
+        _ => ops.push(format!("s1 begin ; s1 ins {} 3 60 ; s1 {} {} k ; s1 rollback", t, how, t)),
+    }
+    ops.push(format!("db sel {}", t));
+    // the table is as it was: no constraint
+    ops.push(format!("db ins {} 4 70 ; db ins {} 2 80 ; db sel {}", t, t, t));
+    if rng.chance(1, 3) {
+        ops.push(format!("reopen ; db ins {} 5 90 ; db sel {}", t, t));
+    }
+    // remove the duplicates (rows are addressed through v), try again
+    ops.push(format!("db del {} where v eq 30 ; db del {} where v eq 80", t, t));
+    let how2 = if rng.chance(1, 2) { "ci" } else { "ak" };
+    ops.push(format!("db {} {} k ; db sel {}", how2, t, t));
+    ops.push(format!("db ins {} 1 11 ; db ins {} 6 12 ; db ins {} null 13 ; db sel {}", t, t, t, t));
+    if rng.chance(1, 2) {
+        ops.push(format!("reopen ; db ins {} 2 14 ; db ins {} 7 15 ; db sel {}", t, t, t));
+    }
+    let tags: Vec<String> = vec!["c15".into(), "index_over_duplicates".into(), "nt".into(), "clean".into()];
+    out.push(Case { line: format!("ddl | {}", ops.join(" ; ")), tags });
+}
+
 impl Engine for DdlEngine {
     fn gen_cases(&self, rng: &mut Rng, tier: Tier) -> Vec<Case> {
         let mut out = Vec::new();
         for _ in 0..(if tier == Tier::Quick { 150 } else { 1500 }) {
             gen_drop_then_add(rng, &mut out);
+        }
+        for _ in 0..(if tier == Tier::Quick { 60 } else { 600 }) {
+            gen_drop_after_rolled_back_drop(rng, &mut out);
+        }
+        for _ in 0..(if tier == Tier::Quick { 40 } else { 400 }) {
+            gen_index_over_duplicates(rng, &mut out);
         }
         let want = if tier == Tier::Quick { 600 } else { 6000 };
         let want = want + out.len();
